@@ -84,6 +84,13 @@ func c15Names(maxLen int) []string {
 }
 
 func c15Gen(g *core.Gen) {
+	for _, f := range []string{"twin2", "twin1"} {
+		for _, ops := range []string{"VR", "RR", "VV", "RV"} {
+			for _, big := range []bool{false, true} {
+				g.Emit(&c15Case{Fmt: f, Name: ops, Zero: big, Disk: true})
+			}
+		}
+	}
 	maxLen := 4
 	if g.Thorough() {
 		maxLen = 5
@@ -164,11 +171,83 @@ func snapTree(root string) map[string]string {
 
 var c15Seq int
 
+// c15TwinDirs: the same archive, byte for byte, in two sibling directories (a backup copy), both with a protected file
+// missing; an operation on the first copy, then Verify / Repair of the second in the same process. Whatever the second
+// call does, it does inside the second directory: the first one is outside its tree. Name: which pair of operations;
+// Zero (reused as "big"): an index file above 64 KiB (3300 slices).
+func c15TwinDirs(c *c15Case, r *core.Rec) {
+	root := filepath.Join(workerScratch(), fmt.Sprintf("c15t-%d", c15Seq))
+	os.RemoveAll(root)
+	defer os.RemoveAll(root)
+	dirA, dirB := filepath.Join(root, "copy-a"), filepath.Join(root, "copy-b")
+	os.MkdirAll(dirA, 0755)
+	os.MkdirAll(dirB, 0755)
+	n := 40
+	if c.Zero {
+		n = 13200
+	}
+	files := map[string][]byte{"large.dat": scen.Content("uniq", r.Seed, 0, n, 4), "small.dat": scen.Content("uniq", r.Seed, 1, 9, 4)}
+	var inputs []string
+	for name, b := range files {
+		ioutil.WriteFile(filepath.Join(dirA, name), b, 0644)
+		inputs = append(inputs, filepath.Join(dirA, name))
+	}
+	sort.Strings(inputs)
+	ext := ".par2"
+	var err error
+	if c.Fmt == "twin2" {
+		err = par2.Create(filepath.Join(dirA, "s.par2"), inputs, par2.CreateOptions{SliceByteCount: 4, NumParityShards: 4, NumGoroutines: 2})
+	} else {
+		ext = ".par"
+		err = par1.Create(filepath.Join(dirA, "s.par"), inputs, par1.CreateOptions{NumParityFiles: 2})
+	}
+	if err != nil {
+		r.Violatef("harness:twin-create-failed", "%v", err)
+		return
+	}
+	os.Remove(filepath.Join(dirA, "small.dat"))
+	for p, b := range readTree(dirA) {
+		os.MkdirAll(filepath.Dir(filepath.Join(dirB, p)), 0755)
+		ioutil.WriteFile(filepath.Join(dirB, p), b, 0644)
+	}
+	do := func(op byte, dir string) {
+		index := filepath.Join(dir, "s"+ext)
+		if pi := core.Catch(func() {
+			switch {
+			case op == 'V' && c.Fmt == "twin2":
+				par2.Verify(index, par2.VerifyOptions{NumGoroutines: 2})
+			case op == 'R' && c.Fmt == "twin2":
+				par2.Repair(index, par2.RepairOptions{NumGoroutines: 2})
+			case op == 'V':
+				par1.Verify(index, par1.VerifyOptions{})
+			default:
+				par1.Repair(index, par1.RepairOptions{})
+			}
+		}); pi != nil {
+			r.Violate("twin-panic:"+pi.Frame, pi.Value)
+		}
+		r.AddTransitions(1)
+	}
+	do(c.Name[0], dirA)
+	beforeA := readTree(dirA)
+	do(c.Name[1], dirB)
+	if d := envfs.Diff(readTree(dirA), beforeA); len(d) > 0 {
+		r.Violatef("write-outside-archive-directory", "%s of %s changed %v in %s - a byte-identical copy of the archive that an earlier call in this process had opened; it lies outside the directory tree of the index file this call was given", map[byte]string{'V': "Verify", 'R': "Repair"}[c.Name[1]], filepath.Join(dirB, "s"+ext), d, dirA)
+	}
+	r.AddStates(1)
+	r.Outcome(fmt.Sprintf("%s %s big=%v", c.Fmt, c.Name, c.Zero))
+	r.NontrivialCase()
+}
+
 func c15Run(ci interface{}, r *core.Rec) {
 	c := ci.(*c15Case)
 	c15Seq++
 	if c.Fmt == "create" {
 		c15Create(c, r)
+		return
+	}
+	if c.Fmt == "twin1" || c.Fmt == "twin2" {
+		c15TwinDirs(c, r)
 		return
 	}
 	root := "/c15root"
@@ -515,7 +594,7 @@ func init() {
 	core.Register(&core.Prop{
 		ID:    "C15",
 		Level: "model_checking",
-		Rule: "bounded-exhaustive declared names: every path built from components {a, .., ., empty, a.., ..a} of length 1-4 (thorough 1-5), each with/without a leading and a trailing slash, plus '..' look-alikes with a control character inside / before / after, backslash, NUL, drive-letter, UNC, long-traversal and non-ASCII (UTF-8, Latin-1, invalid UTF-8) spellings and absolute paths into a canary tree; in each position of a 2-file set; PAR1 and PAR2 archives written by the reference writers as fully repairable sets whose declared files are x {missing, present in the archive directory but damaged, present and intact (PAR1)}; the hostile entry also declared with length 0; PAR2 also with the hostile name carried by the optional Unicode-filename packet of an entry whose file description is harmless; short names also with the first file write of Repair failing (a fallback location must stay inside too); real Verify (PAR1: also with the full parity check) and Repair, plus the staged Decoder API behind Repair used directly (NewDecoder, LoadFileData, LoadParityData, Repair - stopping at the first error, and by a caller that keeps going on the same object: every stage called twice, and the whole procedure twice); PAR1 also with the hostile entry listed but not saved in the parity set. Real-directory runs execute from a third directory inside the canary tree, so anything resolved against the current directory is seen. All names run on the recording in-memory filesystem; names shorter than 9 characters (thorough: 12) additionally on a real directory with a canary tree (byte snapshot of everything around the archive directory before/after). PAR2 Create with inputs outside the index directory in 10 spellings. " +
+		Rule: "bounded-exhaustive declared names: every path built from components {a, .., ., empty, a.., ..a} of length 1-4 (thorough 1-5), each with/without a leading and a trailing slash, plus '..' look-alikes with a control character inside / before / after, backslash, NUL, drive-letter, UNC, long-traversal and non-ASCII (UTF-8, Latin-1, invalid UTF-8) spellings and absolute paths into a canary tree; in each position of a 2-file set; PAR1 and PAR2 archives written by the reference writers as fully repairable sets whose declared files are x {missing, present in the archive directory but damaged, present and intact (PAR1)}; the hostile entry also declared with length 0; PAR2 also with the hostile name carried by the optional Unicode-filename packet of an entry whose file description is harmless; short names also with the first file write of Repair failing (a fallback location must stay inside too); real Verify (PAR1: also with the full parity check) and Repair, plus the staged Decoder API behind Repair used directly (NewDecoder, LoadFileData, LoadParityData, Repair - stopping at the first error, and by a caller that keeps going on the same object: every stage called twice, and the whole procedure twice); PAR1 also with the hostile entry listed but not saved in the parity set. Real-directory runs execute from a third directory inside the canary tree, so anything resolved against the current directory is seen. All names run on the recording in-memory filesystem; names shorter than 9 characters (thorough: 12) additionally on a real directory with a canary tree (byte snapshot of everything around the archive directory before/after). PAR2 Create with inputs outside the index directory in 10 spellings. The same archive byte for byte in two sibling directories (small, and with an index above 64 KiB), an operation on the first copy followed by Verify / Repair of the second in the same process: the first copy must stay as it is. " +
 			"Oracle: every write path, cleaned, lies inside the index directory tree (PAR1: directly in it); nothing outside changes or appears; Create refuses. non-trivial = every case (each declares a hostile or boundary name)",
 		Assumptions: []string{"reads outside the directory are counted in evidence but are not an alarm (the statement constrains create/modify/delete)", "Linux path semantics: backslash is an ordinary character"},
 		NewCase:     func() interface{} { return &c15Case{} },
